@@ -69,11 +69,10 @@ Record state := mkSt {
   routers : list (bytes * router);     (* LANRouters, key = source IP of the RA *)
   defrouter : option bytes;            (* h.Router (its key) *)
   repeat_ : Z;                         (* package-global counter, starts at -1 *)
-  closed : bool;
-  chan_closed : bool                   (* h.closeChan currently holds a closed channel *)
+  closed : bool
 }.
 
-Definition init (rep : Z) : state := mkSt [] [] [] None rep false false.
+Definition init (rep : Z) : state := mkSt [] [] [] None rep false.
 
 Record config := mkCfg { host_mac : bytes; host_lla : bytes }.
 
@@ -111,7 +110,7 @@ Fixpoint rt_set (l : list (bytes * router)) (ip : bytes) (r : router) : list (by
   | (k, r0) :: t => if bytes_eqb k ip then (k, r) :: t else (k, r0) :: rt_set t ip r
   end.
 
-Definition set_loops st l := mkSt (hunt st) l (routers st) (defrouter st) (repeat_ st) (closed st) (chan_closed st).
+Definition set_loops st l := mkSt (hunt st) l (routers st) (defrouter st) (repeat_ st) (closed st).
 
 Fixpoint kill (l : list sloop) (i : nat) : list sloop :=
   match l, i with
@@ -147,32 +146,29 @@ Definition start_hunt (st : state) (a : addr) : state * out :=
   else
     let dst := if ip_valid (a_ip a) then a else mkAddr (a_mac a) all_nodes in
     (mkSt (al_add (hunt st) a) (loops st ++ [mkLoop dst true]) (routers st) (defrouter st)
-          (repeat_ st) (closed st) (chan_closed st),
+          (repeat_ st) (closed st),
      OStage Hunt None).
 
 Definition stop_hunt (st : state) (a : addr) : state * out :=
   if ip_valid (a_ip a) && negb (is_llu (a_ip a)) then (st, OStage NoChange None)
   else (mkSt (al_del (hunt st) (a_mac a)) (loops st) (routers st) (defrouter st)
-             (repeat_ st) (closed st) (chan_closed st),
+             (repeat_ st) (closed st),
         OStage Normal None).
 
 Definition close (st : state) : state * out :=
   if closed st then (st, OStage NoChange None)
-  else (mkSt (hunt st) (loops st) (routers st) (defrouter st) (repeat_ st) true true,
+  else (mkSt (hunt st) (loops st) (routers st) (defrouter st) (repeat_ st) true,
         OStage NoChange None).
 
 (* ProcessPacket, case RouterAdvertisement.  [p] is the ICMPv6 message.
-   DEFECT (ra-after-close): with a non-empty hunt list the first RA after Close
-   closes the already closed closeChan: run-time panic (the fresh channel was
-   already stored, so the next RA does not panic). *)
+   The wake-up of the parked loops (closing closeChan and storing a fresh channel) happens only
+   while the hunt list is non-empty and the handler is not closed (repaired: without the closed
+   test the first RA after Close panicked, finding ra-after-close); it has no effect on the
+   state modelled here: which loops run when is the Wake events' business. *)
 Definition rx_ra (st : state) (src_ip eth_src p : bytes) (host_known : bool) : state * out :=
   if blen p <? 16 then (st, ORA (Err EFrameLen)) else
-  let woke := negb (List.length (hunt st) =? 0)%nat in
-  if woke && chan_closed st then
-    (mkSt (hunt st) (loops st) (routers st) (defrouter st) (repeat_ st) (closed st) false, ORA Panic)
-  else
   let rep := (repeat_ st + 1)%Z in
-  let st1 := mkSt (hunt st) (loops st) (routers st) (defrouter st) rep (closed st) (chan_closed st) in
+  let st1 := mkSt (hunt st) (loops st) (routers st) (defrouter st) rep (closed st) in
   if negb (Z.rem rep 4 =? 0)%Z then (st1, ORA (Ok tt)) else
   if negb host_known then (st1, ORA (Err EOther)) else
   match ra_options p with
@@ -184,7 +180,7 @@ Definition rx_ra (st : state) (src_ip eth_src p : bytes) (host_known : bool) : s
                          end in
     let r' := router_update r p o in
     (mkSt (hunt st) (loops st) (rt_set (routers st) src_ip r')
-          (if created then Some src_ip else defrouter st) rep (closed st) (chan_closed st),
+          (if created then Some src_ip else defrouter st) rep (closed st),
      ORA (Ok tt))
   | Err e => (st1, ORA (Err e))
   | Panic => (st1, ORA Panic)
